@@ -107,6 +107,8 @@ struct Runner
   bool failed{false};
   char const* prop;
   bool in_fail_c15{false};
+  bool no_current_expected{false};
+  uint64_t crashes_mid_rotation{0};
   uint64_t cur_size_model{0};
   // evidence
   uint64_t rotations{0}, deletions_seen{0};
@@ -225,6 +227,17 @@ struct Runner
     uint64_t opens = 0;
     quill::FileEventNotifier fen;
     fen.after_open = [&opens](fs::path const&, FILE*) { ++opens; };
+    // simulated process death in the middle of a rotation: the re-open of the active file (after the rename chain)
+    // never happens - before_open throws, the instance ends there, and the next one starts in append mode over a
+    // directory that holds the backups but no active file. Only with Index naming, no backup limit, append restarts.
+    struct CrashNow {};
+    uint64_t before_opens = 0;
+    uint64_t const crash_at_open = (c.freq == 0 && c.naming == 0 && c.unlimited && c.later_mode == 'a' && inst < c.restarts && r.chance(1, 6)) ? r.range(2, 5) : 0;
+    fen.before_open = [&before_opens, crash_at_open](fs::path const&)
+    {
+      if (++before_opens == crash_at_open) throw CrashNow{};
+    };
+    bool crashed = false;
     std::string const base = dir + "/base.log";
     std::unique_ptr<quill::RotatingFileSink> sink;
     try
@@ -284,6 +297,11 @@ struct Runner
       {
         sink->write_log(nullptr, s.ts, "1", "t", pid, "lg", quill::LogLevel::Info, "INFO", "I", nullptr, line, line);
       }
+      catch (CrashNow const&)
+      {
+        crashed = true; // the statement was not written; the rename chain of this rotation has happened
+        break;
+      }
       catch (std::exception const& e)
       {
         fail("write-threw", J{}.str("what", e.what()).unum("stmt", s.id));
@@ -302,14 +320,21 @@ struct Runner
     }
     try
     {
-      sink->flush_sink();
+      if (!crashed) sink->flush_sink();
       sink.reset();
     }
     catch (std::exception const& e)
     {
-      fail("close-threw", J{}.str("what", e.what()));
+      if (!crashed) fail("close-threw", J{}.str("what", e.what()));
     }
-    rotations_per_instance.push_back(opens ? opens - 1 : 0);
+    rotations_per_instance.push_back((opens ? opens - 1 : 0) + (crashed ? 1 : 0));
+    if (crashed)
+    {
+      ++rotations;
+      ++crashes_mid_rotation;
+      g_stats.add("instances_ended_by_a_simulated_crash_between_rename_chain_and_reopen");
+    }
+    no_current_expected = crashed;
   }
 
   // ---------------------------------------------------------------- directory oracle
@@ -464,6 +489,12 @@ struct Runner
       if (f.current) { current = &f; continue; }
       ++rotated_all;
       if (!f.ids.empty() && f.ids.back() >= uni_first_id) ++rotated_universe;
+    }
+    if (!current && no_current_expected)
+    {
+      // right after a simulated crash in mid-rotation there is no active file: the remaining checks of this
+      // judgement need one; the next instance (append mode) must continue the sequence and is judged in full
+      return;
     }
     if (!current) return fail("current-file-missing", J{});
     uint64_t rot_since = 0;
